@@ -1164,6 +1164,36 @@ func genC05(w *bufio.Writer, seed int64, n int, tier string) {
 			fmt.Fprintf(w, "end\n")
 			continue
 		}
+		if ci%20 == 13 {
+			// explicit stack with a multi-block SSTable that no memtable shadows: positioned
+			// scans (Seek / range start) that begin in one data block and run on across the
+			// following blocks
+			fmt.Fprintf(w, "case %s stack=1\n", id)
+			fmt.Fprintf(w, "mem\ne %s %s %d\nt %s %d\n", mkTok([]byte("k0007")), mkTok([]byte("m")), 900, mkTok([]byte("k0150")), 901)
+			fmt.Fprintf(w, "sst\n")
+			nk := 280 + r.Intn(60)
+			for j := 0; j < nk; j++ {
+				fmt.Fprintf(w, "e %s @%d:%d\n", mkTok([]byte(fmt.Sprintf("k%04d", j))), 500+r.Intn(300), r.Intn(1<<20))
+			}
+			for sct := 0; sct < 8; sct++ {
+				a, b := r.Intn(nk), r.Intn(nk)
+				if a > b {
+					a, b = b, a
+				}
+				switch sct % 4 {
+				case 0:
+					fmt.Fprintf(w, "iter full\nseek %s\nscan 1000\n", mkTok([]byte(fmt.Sprintf("k%04d", a))))
+				case 1:
+					fmt.Fprintf(w, "iter full\nseek %s\nnext\nnext\nscan 1000\n", mkTok([]byte(fmt.Sprintf("k%04dx", a))))
+				case 2:
+					fmt.Fprintf(w, "iter range %s %s\nfirst\nscan 1000\n", mkTok([]byte(fmt.Sprintf("k%04d", a))), mkTok([]byte(fmt.Sprintf("k%04d", b))))
+				default:
+					fmt.Fprintf(w, "iter range %s %s\nlast\nfirst\nscan 1000\n", mkTok([]byte(fmt.Sprintf("k%04d", a))), mkTok([]byte(fmt.Sprintf("k%04dz", b))))
+				}
+			}
+			fmt.Fprintf(w, "end\n")
+			continue
+		}
 		if ci%10 == 3 {
 			// explicit layer stack: tables that no memtable shadows
 			fmt.Fprintf(w, "case %s stack=1\n", id)
